@@ -25,19 +25,28 @@ pub fn number_regex_parser(config: &SmartCalcConfig, tokinizer: &mut Tokinizer, 
 
             if let Some(binary) = capture.name("BINARY") {
                 parse_end = binary.end();
-                number = i64::from_str_radix(binary.as_str(), 2).unwrap() as f64;
+                number = match i64::from_str_radix(binary.as_str(), 2) {
+                    Ok(num) => num as f64,
+                    _ => continue
+                };
                 number_type = NumberType::Binary;
                 number_match = capture.name("BINARY_FULL");
             }
             else if let Some(hex) = capture.name("HEX") { 
                 parse_end = hex.end();
-                number = i64::from_str_radix(hex.as_str(), 16).unwrap() as f64;
+                number = match i64::from_str_radix(hex.as_str(), 16) {
+                    Ok(num) => num as f64,
+                    _ => continue
+                };
                 number_type = NumberType::Hexadecimal;
                 number_match = capture.name("HEX_FULL");
             }
             else if let Some(octal) = capture.name("OCTAL") { 
                 parse_end = octal.end();
-                number = i64::from_str_radix(octal.as_str(), 8).unwrap() as f64;
+                number = match i64::from_str_radix(octal.as_str(), 8) {
+                    Ok(num) => num as f64,
+                    _ => continue
+                };
                 number_type = NumberType::Octal;
                 number_match = capture.name("OCTAL_FULL");
             }
